@@ -22,15 +22,17 @@ structure TInv (T : Int) (sp : SpecSt) (st : St) : Prop where
   wfl : WFL st.dts
   link : LinkInv st.dts
   unch : UnchInv st.dts
+  qinv : QInv st
 
 theorem tinv_init (k : Kind) : TInv 990 (specInit k) (initSt k) where
-  rel := ⟨rfl, rfl, fun h => by simp [specInit] at h, fun _ => rfl, rfl, rfl, Pw.nil⟩
+  rel := ⟨rfl, rfl, fun h => by simp [specInit] at h, fun _ => rfl, rfl, ⟨rfl, rfl⟩, Pw.nil⟩
   sinv := ⟨by simp [initSt], by simp [initSt], fun d hd => by simp [initSt] at hd⟩
   pend := fun d hd => by simp [initSt] at hd
   ainv := ⟨by simp [initSt], fun d hd => by simp [initSt] at hd⟩
   wfl := ⟨by simp [initSt, idsOf], by simp [initSt, Newer], fun d hd => by simp [initSt] at hd⟩
   link := fun d hd => by simp [initSt] at hd
   unch := fun d hd => by simp [initSt] at hd
+  qinv := fun d hd => by simp [initSt] at hd
 
 theorem tinv_step {T : Int} {sp : SpecSt} {st : St} (h : TInv T sp st) (op : Op) (hT : T ≤ op.now)
     (hop : opOK op) : TInv op.now (specNext sp op (stepObs st op).2) (step st op).1 := by
@@ -42,7 +44,8 @@ theorem tinv_step {T : Int} {sp : SpecSt} {st : St} (h : TInv T sp st) (op : Op)
     ainv := ainv_step st op h.ainv hnow hop
     wfl := (step_cascade st op h.wfl h.sinv.1 hnow hop).2
     link := link_step st op h.wfl.1 h.wfl.2.2 h.sinv.1 hnow hop h.link
-    unch := unch_step st op h.wfl h.unch }
+    unch := unch_step st op h.wfl h.unch
+    qinv := qinv_step st op h.qinv }
 
 theorem specStep_core {T : Int} {sp : SpecSt} {st : St} (h : TInv T sp st) (op : Op) (hT : T ≤ op.now)
     (hop : opOK op) : specStepM coreMask sp op (stepObs st op).2 = none := by
@@ -55,7 +58,7 @@ theorem specStep_core {T : Int} {sp : SpecSt} {st : St} (h : TInv T sp st) (op :
   simp only [specStepM, specChecks, firstFailM, coreMask, chkInDt_model sp st op hrel hnd,
     chkExpired_model sp st op hrel hnd h'.ainv, existence_model sp st op hrel hnd,
     chkDropped_model sp st op hrel hnd, chkRemovedEvent_model sp st op hrel hnd, chkOwner_model sp st op hrel hnd,
-    chkEndOnce_model sp st op hrel hnd (fun d hd => (h'.pend d hd).1),
+    chkEndOnce_model sp st op hrel hnd (fun d hd => (h'.pend d hd).1) (qinv_pre st op h.qinv),
     chkCascade_model sp st op hrel hnd hcl h.link, chkFlexible_model sp st op hrel h.wfl h.unch hop,
     chkFixedStarted_model sp st op hrel h.wfl hnow,
     chkDepth_model sp st op hrel hnd, chkWriteOnce_model sp st op hrel hnd, chkWindow_model sp st op hrel hnd,
